@@ -130,3 +130,40 @@ async fn k1_buzhash_resync_after_zero_run() {
     }
     assert_eq!(bad, 0, "boundaries after a common boundary differ (stale BuzHash window)");
 }
+
+
+fn raw_header(dict_size: u64) -> Vec<u8> {
+    let mut v = b"BITA1\0".to_vec();
+    v.extend(dict_size.to_le_bytes());
+    v.extend(vec![0u8; 200]);
+    v
+}
+
+// K7: a declared dictionary size close to u64::MAX makes `dictionary_size + 8 + 64` overflow in try_init
+// (panic with overflow checks). Must be an error.
+#[tokio::test]
+async fn k7_dictionary_size_overflow() {
+    assert!(Archive::try_init(IoReader::new(std::io::Cursor::new(raw_header(u64::MAX - 10)))).await.is_err());
+}
+
+// K8: IoReader::read_at pre-allocates whatever size it is asked for, and try_init asks for the untrusted
+// dictionary size: 2^63 panics with "capacity overflow", 2^46 aborts the process on allocation failure
+// (run these one at a time before the fix: the second takes the whole test process down).
+#[tokio::test]
+async fn k8_dictionary_size_capacity_overflow() {
+    assert!(Archive::try_init(IoReader::new(std::io::Cursor::new(raw_header(1u64 << 63)))).await.is_err());
+}
+#[tokio::test]
+async fn k8_dictionary_size_huge_allocation() {
+    assert!(Archive::try_init(IoReader::new(std::io::Cursor::new(raw_header(1u64 << 46)))).await.is_err());
+}
+// the repaired read_at still returns exactly the requested bytes for reads above the pre-allocation limit
+#[tokio::test]
+async fn k8_read_at_large_exact() {
+    use bitar::archive_reader::ArchiveReader;
+    let data: Vec<u8> = (0..5_000_000u32).map(|i| (i % 251) as u8).collect();
+    let mut r = IoReader::new(std::io::Cursor::new(data.clone()));
+    let got = r.read_at(7, 3_000_001).await.unwrap();
+    assert_eq!(got.len(), 3_000_001);
+    assert_eq!(&got[..], &data[7..7 + 3_000_001]);
+}
